@@ -47,12 +47,21 @@ impl Command for CommandImpl {
             }
         };
 
+        // a length that cannot be allocated is an error of the caller, not a reason to panic or abort
+        let mut random_value = String::new();
+        if random_value.try_reserve_exact(length).is_err() {
+            return CommandResult::Error(
+                format!("Unable to allocate text of length: {}", length).to_string(),
+            );
+        }
+
         let mut rng_inst = rng();
-        let random_value: String = iter::repeat(())
-            .map(|()| rng_inst.sample(Alphanumeric))
-            .map(char::from)
-            .take(length)
-            .collect();
+        random_value.extend(
+            iter::repeat(())
+                .map(|()| rng_inst.sample(Alphanumeric))
+                .map(char::from)
+                .take(length),
+        );
 
         CommandResult::Continue(Some(random_value))
     }
